@@ -213,7 +213,7 @@ harness_bi!(left_ascii3, 6, std_caps, {
     reach!(n == 32767);
 });
 
-//# harness left_empty tier=quick label=bounded(s="";n:INTEGER) props=C17 fn=rusty_basic/src/interpreter/built_ins/left.rs::run timeout=600
+//# harness left_empty tier=quick label=bounded(s=empty;n:INTEGER) props=C17 fn=rusty_basic/src/interpreter/built_ins/left.rs::run timeout=600
 harness_bi!(left_empty, 6, std_caps, {
     let n = check_left(&[]);
     reach!(n == 0);
@@ -243,7 +243,7 @@ harness_bi!(right_ascii3, 6, std_caps, {
     reach!(n == 32767);
 });
 
-//# harness right_empty tier=quick label=bounded(s="";n:INTEGER) props=C17 fn=rusty_basic/src/interpreter/built_ins/right.rs::run timeout=600
+//# harness right_empty tier=quick label=bounded(s=empty;n:INTEGER) props=C17 fn=rusty_basic/src/interpreter/built_ins/right.rs::run timeout=600
 harness_bi!(right_empty, 6, std_caps, {
     let n = check_right(&[]);
     reach!(n == 0);
@@ -323,7 +323,7 @@ harness_bi!(mid2_ascii3, 6, std_caps, {
     reach!(p == -32768);
 });
 
-//# harness mid3_empty tier=thorough label=bounded(s="";start,len:INTEGER) props=C17 fn=rusty_basic/src/interpreter/built_ins/mid_fn.rs::run timeout=600
+//# harness mid3_empty tier=thorough label=bounded(s=empty;start,len:INTEGER) props=C17 fn=rusty_basic/src/interpreter/built_ins/mid_fn.rs::run timeout=600
 harness_bi!(mid3_empty, 6, std_caps, {
     let (p, l) = check_mid(&[], true);
     reach!(p == 1 && l == 1);
@@ -339,8 +339,11 @@ harness_bi!(finding_f43_mid_latin1, 6, std_caps, {
     reach!(p == 0);
 });
 
-// LEFT$(s,n) + MID$(s,n+1) = s   (n >= 0; n+1 must itself be an INTEGER)
-//# harness left_mid_identity tier=quick label=bounded(s="abc";n:0..=32766) props=C17 fn=rusty_basic/src/interpreter/built_ins/left.rs::run,rusty_basic/src/interpreter/built_ins/mid_fn.rs::run timeout=900
+// LEFT$(s,n) + MID$(s,n+1) = s   (n >= 0; n+1 must itself be an INTEGER).  Two wrapper calls in one harness: runs WITHOUT the
+// capacity stubs (with them CBMC ends in spurious pointer failures / no result) and therefore only while MID$ does not
+// build its result with push/collect (45 s on the present tree; with the proposed F43 repair it runs out of memory ->
+// thorough tier; the law then follows from left_ascii3 + mid2_ascii3, which state both sides exactly for every n).
+//# harness left_mid_identity tier=thorough label=bounded(s=abc;n:0..=32766) props=C17 fn=rusty_basic/src/interpreter/built_ins/left.rs::run,rusty_basic/src/interpreter/built_ins/mid_fn.rs::run timeout=900
 harness_bi!(left_mid_identity, 6, {
     let cs = [ch(b'a'), ch(b'b'), ch(b'c')];
     let n = vs::i16() as i32;
@@ -407,7 +410,7 @@ harness_bi!(len_latin1, 8, std_caps, {
     check_len(&[any_latin1(), any_ascii(), any_latin1()]);
 });
 
-//# harness len_empty tier=quick label=bounded(s="") props=C17 fn=rusty_basic/src/interpreter/built_ins/len.rs::run timeout=600
+//# harness len_empty tier=quick label=bounded(s=empty) props=C17 fn=rusty_basic/src/interpreter/built_ins/len.rs::run timeout=600
 harness_bi!(len_empty, 6, std_caps, {
     check_len(&[]);
 });
@@ -593,7 +596,7 @@ harness_bi!(finding_f40_ltrim_whitespace, 6, std_caps, {
     check_ltrim(&cs);
 });
 
-//# harness ltrim_latin1 tier=quick label=bounded(s=ascii+CHR$(128..255)+"x") props=C17 fn=rusty_basic/src/interpreter/built_ins/ltrim.rs::run timeout=600
+//# harness ltrim_latin1 tier=quick label=bounded(s=ascii+CHR$(128..255)+x) props=C17 fn=rusty_basic/src/interpreter/built_ins/ltrim.rs::run timeout=600
 harness_bi!(ltrim_latin1, 6, std_caps, {
     let cs = [any_ascii(), any_latin1(), ch(b'x')];
     if KF_F40 {
@@ -605,7 +608,7 @@ harness_bi!(ltrim_latin1, 6, std_caps, {
     reach!(cs[0].code == b'y' && cs[1].code == 0xA0);
 });
 
-//# harness finding_f40_ltrim_nbsp tier=quick label=bounded(s=" "+CHR$(133|160)+"x") props=C17 fn=rusty_basic/src/interpreter/built_ins/ltrim.rs::run timeout=600 expect=finding:F40
+//# harness finding_f40_ltrim_nbsp tier=quick label=bounded(s=blank+CHR$(133|160)+x) props=C17 fn=rusty_basic/src/interpreter/built_ins/ltrim.rs::run timeout=600 expect=finding:F40
 harness_bi!(finding_f40_ltrim_nbsp, 6, std_caps, {
     let cs = [ch(32), any_latin1(), ch(b'x')];
     vs::assume(is_other_whitespace(cs[1]));
@@ -634,7 +637,7 @@ harness_bi!(finding_f41_rtrim_whitespace, 6, std_caps, {
     check_rtrim(&cs);
 });
 
-//# harness rtrim_latin1 tier=quick label=bounded(s="x"+CHR$(128..255)+ascii) props=C17 fn=rusty_basic/src/interpreter/built_ins/rtrim.rs::run timeout=600
+//# harness rtrim_latin1 tier=quick label=bounded(s=x+CHR$(128..255)+ascii) props=C17 fn=rusty_basic/src/interpreter/built_ins/rtrim.rs::run timeout=600
 harness_bi!(rtrim_latin1, 6, std_caps, {
     let cs = [ch(b'x'), any_latin1(), any_ascii()];
     if KF_F41 {
@@ -646,7 +649,7 @@ harness_bi!(rtrim_latin1, 6, std_caps, {
     reach!(cs[1].code == 0xA0 && cs[2].code == b'y');
 });
 
-//# harness finding_f41_rtrim_nbsp tier=quick label=bounded(s="x"+CHR$(133|160)+" ") props=C17 fn=rusty_basic/src/interpreter/built_ins/rtrim.rs::run timeout=600 expect=finding:F41
+//# harness finding_f41_rtrim_nbsp tier=quick label=bounded(s=x+CHR$(133|160)+blank) props=C17 fn=rusty_basic/src/interpreter/built_ins/rtrim.rs::run timeout=600 expect=finding:F41
 harness_bi!(finding_f41_rtrim_nbsp, 6, std_caps, {
     let cs = [ch(b'x'), any_latin1(), ch(32)];
     vs::assume(is_other_whitespace(cs[1]));
@@ -727,7 +730,7 @@ harness_bi!(string_code_out_of_range, 6, std_caps, {
     reach!(n == -1 && code == 32767);
 });
 
-//# harness string_str tier=quick label=bounded(n<=3,every_n<0;s$=""|ascii+"z"|CHR$(128..255)+"z") props=C17 fn=rusty_basic/src/interpreter/built_ins/string_fn.rs::run timeout=600
+//# harness string_str tier=quick label=bounded(n<=3,every_n<0;s$=empty|ascii+z|CHR$(128..255)+z) props=C17 fn=rusty_basic/src/interpreter/built_ins/string_fn.rs::run timeout=600
 harness_bi!(string_str, 8, std_caps, {
     let n = vs::i16() as i32;
     vs::assume(n <= 3);
@@ -877,7 +880,7 @@ harness_bi!(instr_2args, 8, std_caps, {
     reach!(got == 0);
 });
 
-//# harness instr_empty_haystack tier=quick label=bounded(s="",t="a";n:INTEGER) props=C17 fn=rusty_basic/src/interpreter/built_ins/instr.rs::run timeout=600
+//# harness instr_empty_haystack tier=quick label=bounded(s=empty,t=a;n:INTEGER) props=C17 fn=rusty_basic/src/interpreter/built_ins/instr.rs::run timeout=600
 harness_bi!(instr_empty_haystack, 8, std_caps, {
     let n = vs::i16() as i32;
     let got = check_instr(Some(n), &[], &[ch(b'a')]);
@@ -887,7 +890,7 @@ harness_bi!(instr_empty_haystack, 8, std_caps, {
 
 // F44: do_instr slices the haystack at BYTE offsets (`hay.get(i..i+|t|).unwrap()`): a character >= CHR$(128) in the
 // haystack makes an offset fall inside a character -> panic (and positions would be byte positions).
-//# harness finding_f44_instr_latin1 tier=quick label=bounded(s="a"+CHR$(200)+"b",t="b") props=C17 fn=rusty_basic/src/interpreter/built_ins/instr.rs::run timeout=600 expect=finding:F44 standalone=1
+//# harness finding_f44_instr_latin1 tier=quick label=bounded(s=a+CHR$(200)+b,t=b) props=C17 fn=rusty_basic/src/interpreter/built_ins/instr.rs::run timeout=600 expect=finding:F44 standalone=1
 harness_bi!(finding_f44_instr_latin1, 8, std_caps, {
     let got = check_instr(None, &[ch(b'a'), ch(0xC8), ch(b'b')], &[ch(b'b')]);
     reach!(got == 3);
